@@ -95,6 +95,9 @@ impl StateMachine<'_> {
 
         if self.source == Source::DiffUnified {
             self.state = State::DiffHeader(DiffType::Unified);
+            // Here the `--- ` line starts a new file section (there is no `diff` line which
+            // would do this): its header is due even if it names the same files as the last.
+            self.handled_diff_header_header_line_file_pair = None;
             self.painter
                 .set_syntax(get_filename_from_marker_line(&self.line));
         } else {
